@@ -29,7 +29,7 @@ type solverSpec struct {
 }
 
 var solvers = []solverSpec{
-	{"z3-new", func(f string, t int) []string { return []string{"z3-new", fmt.Sprintf("-T:%d", t), f} }},
+	{"z3-new", func(f string, t int) []string { return []string{"z3-new", fmt.Sprintf("-T:%d", t), "auto_config=false", f} }},
 	{"z3", func(f string, t int) []string { return []string{"z3", fmt.Sprintf("-T:%d", t), f} }},
 	{"cvc5", func(f string, t int) []string {
 		return []string{"cvc5", fmt.Sprintf("--tlimit=%d", t*1000), "--full-saturate-quant", f}
@@ -39,6 +39,11 @@ var solvers = []solverSpec{
 var z3NoMBQI = solverSpec{"z3-new-ematch", func(f string, t int) []string {
 	return []string{"z3-new", fmt.Sprintf("-T:%d", t), "smt.mbqi=false", f}
 }}
+
+// z3-new with its automatic configuration, for the stage-2 race. Stage 1 runs z3-new with auto_config=false:
+// on these VCs (quantified heap axioms plus the Real field of the interface datatype) the automatic
+// configuration diverges on goals that plain E-matching decides in milliseconds.
+var z3NewAuto = solverSpec{"z3-new-auto", func(f string, t int) []string { return []string{"z3-new", fmt.Sprintf("-T:%d", t), f} }}
 
 func runSolver(s solverSpec, file string, timeoutS int) (status string, out string, secs float64) {
 	return runSolverCtx(context.Background(), s, file, timeoutS)
@@ -142,8 +147,9 @@ func SolveAll(g *Gen, header string, results []*FnResult, outDir string, par int
 				o    string
 				secs float64
 			}
-			ch := make(chan res, 3)
+			ch := make(chan res, 4)
 			cands := []solverSpec{solvers[1], solvers[2]}
+			cands = append(cands, z3NewAuto)
 			if timeoutS > short {
 				cands = append(cands, solvers[0])
 			}
